@@ -43,8 +43,15 @@ def main():
     only = sys.argv[1:]
     ids = [s for s in sorted(os.listdir(os.path.join(VERIF, "seeded"))) if not only or any(s.startswith(o) for o in only)]
     rows = []
-    with ProcessPoolExecutor(8) as ex:
-        for sid, fired in ex.map(job, ids):
+    def results():
+        # a fresh pool per chunk: worker processes do not grow without bound
+        for k in range(0, len(ids), 32):
+            with ProcessPoolExecutor(8) as ex:
+                for r in ex.map(job, ids[k:k + 32]):
+                    yield r
+
+    if True:
+        for sid, fired in results():
             mp = os.path.join(VERIF, "seeded", sid, "meta.json")
             meta = json.load(open(mp))
             meta["checks_that_report_it"] = fired
